@@ -80,7 +80,7 @@ def attribute(rn, prog, ref, fails):
     cur = prog
     left = dict(fails)
     if "raw" in prog:
-        return ["%s: hand-written program" % level_name(left)]
+        return ["%s: hand-written program: %s" % (level_name(left), prog.get("name", "?"))]
 
     def rerun(p, levels):
         out = {}
